@@ -415,6 +415,18 @@ class ExprMixin:
 
     def equal(self, a: Val, b: Val, node=None, identity=False):
         ka, kb = a.t[0], b.t[0]
+        if ka in ("cls", "symcls") or kb in ("cls", "symcls"):
+            def cid(v):
+                if v.t[0] == "symcls" or (v.t[0] == "cls" and v.z is not None):
+                    return v.z
+                if v.t[0] == "cls":
+                    return z3.IntVal(self.class_id(v.conc))
+                if v.t[0] == "int":
+                    return v.z
+                return None
+            ca, cb = cid(a), cid(b)
+            if ca is not None and cb is not None:
+                return ca == cb
         if ka in ("cls", "builtin") and kb in ("cls", "builtin"):
             return z3.BoolVal(a.conc == b.conc)
         if ka == "tuple" and kb == "tuple":
@@ -508,6 +520,8 @@ class ExprMixin:
             return [(st, Val(("boundmethod",), (base, attr)))]
         if k == "cls":
             return self.lib.class_attr(base.conc, attr, st, node)
+        if k == "symcls" and attr in ("from_buffer", "from_buffer_copy"):
+            return [(st, Val(("boundmethod",), (base, attr)))]
         if k in ("ref", "exc"):
             cls = base.t[1] if k == "ref" else "Exception"
             # ghost/declared field first
@@ -539,7 +553,7 @@ class ExprMixin:
                     return [(st, Val(INT, self.classvar_fn(attr)(self.dtype_fn(base.z))))]
                 return [(st, self.const_val(val))]
             return self.lib.dynamic_attr(base, attr, st, node)
-        if k in ("set", "list", "dict", "str", "carray", "tuple", "float", "int", "opaque", "dictview", "bytes", "ctxvar", "map"):
+        if k in ("set", "list", "dict", "str", "carray", "tuple", "float", "int", "opaque", "dictview", "bytes", "ctxvar", "map", "concdict"):
             return [(st, Val(("boundmethod",), (base, attr), origin=node.value if isinstance(node, ast.Attribute) else None))]
         raise Unsupported(f"attribute .{attr} on {tstr(base.t)}", node, self.path)
 
